@@ -202,8 +202,12 @@ def plain(sample):
     return np.array(np.asarray(sample), copy=True).view(np.ndarray)
 
 
-def basic_array_problem(sample, MathArray, shape, want_complex):
-    """type, shape, finiteness, realness / complexness.  Returns (sig_suffix, message) or None."""
+def basic_array_problem(sample, MathArray, shape, want_complex, forced_real=False):
+    """
+    type, shape, finiteness, realness / complexness.  Returns (sig_suffix, message) or None.
+    A complex sampler must give a complex-typed array with some non-zero imaginary part, except where the
+    other declared constraints force real entries (forced_real: the array must then only be complex-typed).
+    """
     if not isinstance(sample, MathArray):
         return ('not-matharray', 'sample is %s, not MathArray' % type(sample).__name__)
     a = plain(sample)
@@ -217,7 +221,7 @@ def basic_array_problem(sample, MathArray, shape, want_complex):
         if a.dtype.kind == 'c' and np.any(a.imag != 0):
             return ('not-real', 'real sampler gave entries with non-zero imaginary part')
     elif want_complex is True:
-        if a.dtype.kind != 'c' or not np.any(a.imag != 0):
+        if a.dtype.kind != 'c' or not (forced_real or np.any(a.imag != 0)):
             return ('not-complex', 'complex sampler gave a purely real array (dtype %s)' % a.dtype)
     return None
 
